@@ -2,7 +2,7 @@
 JSON-able abstract states.  They hold no expectations - verdicts come from the TLA+ contracts."""
 import sys, logging, xml.dom
 
-sys.path.insert(0, "/repo")
+sys.path.insert(0, __import__("os").environ.get("VERIF_REPO", "/repo"))
 import cssutils  # noqa: E402  (always the working tree under /repo)
 
 
